@@ -15,6 +15,7 @@ import DvcData.Model.Fetch
 import DvcData.Model.StoreAdd
 import DvcData.Model.LinkRecord
 import DvcData.Model.CheckoutNone
+import DvcData.Model.FsPath
 import DvcData.Model.State
 import DvcData.Model.Store
 import DvcData.Model.Checkout
@@ -443,6 +444,11 @@ def opCheckoutNone (j : Lean.Json) : Except String Lean.Json := do
   let r := Checkout.checkoutNone cfg cache (boolOf j "dir_cached") ws order
   pure (Lean.Json.mkObj [("completed", .bool r.1), ("left", Lean.Json.arr (r.2.map fun e => keyTo e.1).toArray)])
 
+/-- `DataFileSystem._get_key` on a table of path spellings -/
+def opFsKey (j : Lean.Json) : Except String Lean.Json := do
+  let ps ← strList j "paths"
+  pure (Lean.Json.mkObj [("keys", Lean.Json.arr (ps.map fun p => keyTo (FsPath.getKey p.toList)).toArray)])
+
 def optEntryOf (j : Lean.Json) : Except String (Option MetaInfo.Entry) :=
   match j with | .null => pure none | j => do pure (some (← entryOf j))
 
@@ -849,6 +855,7 @@ def dispatch (j : Json) : Except String Json := do
   | "store_add" => opStoreAdd j
   | "link_token" => opLinkToken j
   | "checkout_none" => opCheckoutNone j
+  | "fs_key" => opFsKey j
   | "idx_checkout" => opIdxCheckout j
   | "state_history" => opStateHistory j
   | "store_history" => opStoreHistory j
